@@ -17,6 +17,9 @@ let int_of_n (n : coq_N) : int = match n with N0 -> 0 | Npos p -> int_of_pos p
 let rec nat_of_int (i : int) : Datatypes.nat =
   if i <= 0 then Datatypes.O else Datatypes.S (nat_of_int (i - 1))
 
+let rec int_of_nat (n : Datatypes.nat) : int =
+  match n with Datatypes.O -> 0 | Datatypes.S m -> 1 + int_of_nat m
+
 (* bytes of an OCaml string as a list of N *)
 let nlist_of_string (s : string) : coq_N list =
   let r = ref [] in
